@@ -887,6 +887,9 @@ def check_headers_msg(sess, hm, payload):
         r.compact()
     if len(hm.headers) != n:
         fail("C19", "P3", "headers_count", f"parsed {len(hm.headers)} headers, payload has {n}")
+    if rp.enc_headers(hs) != payload:
+        # the headers layout is count, then (80-byte header, transaction count 0) per entry, nothing else
+        fail("C19", "P3", "headers_payload_not_in_layout", "a headers payload that is not in the protocol's layout (non-zero transaction count after a header, or trailing bytes) was decoded into a HeadersMessage")
     for k, (b, h) in enumerate(zip(hm.headers, hs)):
         d = rp.dec_header(h)
         if (b.version, b.prev_block, b.merkle_root, b.timestamp, b.bits, b.nonce) != (d["version"], d["prev"], d["root"], d["time"], d["bits"], d["nonce"]):
@@ -1749,6 +1752,12 @@ def enumerate_plans(tier, prop, seed):
             p = dict(base, steps=[dict(s) for s in base["steps"]])
             p["steps"][si]["fault"] = {"kind": "flip", "k": k, "abs": True, "bit": (k * 5 + seed) % 8}
             yield p
+    # headers batches with a non-zero transaction count after header k, every position
+    for k in range(6):
+        for cnt in (0, 1, 2):
+            hb = {"network": "regtest", "clock": {"base": 1700000000}, "nonce": 9 + seed, "frag_seed": 17 + seed + k, "frag": "mixed", "chain": {"seed": 23 + seed, "txs": [1, 2, 1, 3, 1, 2]},
+                  "steps": [{"op": "getheaders", "trigger": "getheaders", "start": "base", "max": 2000, "fault": {"kind": "hdr_txcount", "a": k + 6 * cnt, "b": 0}}], "enum": "headers-txcount"}
+            yield hb
     # primitive fields: every ordered pair of compact-size boundary values in one record (each value followed by another field)
     base = {"network": "signet", "clock": {"base": 1700000000}, "nonce": 5 + seed, "frag_seed": 3 + seed, "frag": "mixed", "chain": chain, "steps": []}
     vb = VARINT_BOUNDARIES if tier == "thorough" else [0, 0xFC, 0xFD, 0xFFFF, 0x10000, 0xFFFFFFFF, 0x100000000, 2**48 - 1, 2**48, 2**64 - 1]
